@@ -1,7 +1,7 @@
 //! C05 — decoding untrusted input never panics or hangs (panic monitor; run on two builds).
 use crate::ctx::{guard, panic_site, Case, Ctx};
 use crate::gen::inputs;
-use crate::gen::rswords::{add_vanishing, add_virtual_error, add_with_roots, apply, pattern, random_root_set, valid_codeword};
+use crate::gen::rswords::{add_vanishing, add_virtual_error, add_with_roots, apply, pattern, pattern_with_syndromes, random_root_set, set_all_syndromes, structured_syndromes, valid_codeword};
 use crate::json::{hex, J};
 use crate::refimpl::cat::{self, Row, CAT};
 use crate::refimpl::dec::randomize_255;
@@ -238,7 +238,34 @@ pub fn run(ctx: &mut Ctx) {
         let big = r.total() > 300;
         let n = ctx.budget(if big { 16 * 60 } else { 16 * 400 }, if big { 16 * 6000 } else { 16 * 40_000 });
         for i in 0..n as usize {
-            match i % 7 {
+            match i % 9 {
+                7 => {
+                    // all k syndromes of one block prescribed to a structured sequence
+                    let mut cw = valid_codeword(&mut ctx.rng, r, &rs, 3);
+                    let b = ctx.rng.below(r.blocks);
+                    let target = structured_syndromes(&mut ctx.rng, k);
+                    set_all_syndromes(r, &mut cw, b, &target);
+                    eval_word(ctx, r, &cw, "c.structured_syndromes_all_k");
+                }
+                8 => {
+                    // weight-w pattern (w <= t) with a structured syndrome prefix, optionally plus one more error
+                    let cw = valid_codeword(&mut ctx.rng, r, &rs, 3);
+                    let b = ctx.rng.below(r.blocks);
+                    let w = if ctx.rng.chance(1, 2) { t } else { ctx.rng.range(1, t) };
+                    let target = structured_syndromes(&mut ctx.rng, w);
+                    if let Some(mut e) = pattern_with_syndromes(&mut ctx.rng, r, b, w, &target) {
+                        if ctx.rng.chance(1, 3) {
+                            let extra = pattern(&mut ctx.rng, r, &(0..r.blocks).map(|x| if x == b { 1 } else { 0 }).collect::<Vec<_>>());
+                            for x in extra {
+                                if !e.iter().any(|y| y.0 == x.0) {
+                                    e.push(x);
+                                }
+                            }
+                        }
+                        let wd = apply(&cw, &e);
+                        eval_word(ctx, r, &wd, "c.structured_syndromes_weight_le_t");
+                    }
+                }
                 6 => {
                     // an arbitrary subset of the syndromes vanishes (e.g. all but the first)
                     let mut cw = valid_codeword(&mut ctx.rng, r, &rs, i);
